@@ -1073,6 +1073,16 @@ def _dtype(ex, args, kwargs, fr):
     return d
 
 
+@npfn("numpy.iinfo")
+def _iinfo(ex, args, kwargs, fr):
+    d = dtype_of_lib(args[0])
+    if d is None or not is_conc(d.v) or d.v not in INT_DT + UINT_DT:
+        raise Unsupported("np.iinfo of a non-integer or symbolic dtype")
+    bits = int("".join(c for c in d.v if c.isdigit()))
+    lo, hi = (0, 2**bits - 1) if d.v in UINT_DT else (-2**(bits - 1), 2**(bits - 1) - 1)
+    return VOpaque("iinfo", None, {"min": VInt(lo), "max": VInt(hi), "bits": VInt(bits)})
+
+
 @npfn("numpy.issubdtype")
 def _issubdtype(ex, args, kwargs, fr):
     d = dtype_of_lib(args[0])
